@@ -16,8 +16,9 @@ def run(tier):
     tb, ts = lib.replay_step(c, rt, ["arc"], jsonl, ["--slots", "3", "--allocs", "2", "--threads", "2"], parts=8,
                              what="CArc/CArcSome diverge from Arc semantics")
     # spec -> impl, long random behaviours
-    n = 300 if quick else 5000
-    jsonl2, nb2 = lib.gen_step(c, "Gen_CArc", "Gen_CArc_sim.cfg", "gen_carc_sim", simulate="num=%d" % n, workers=4, seed_=lib.seed())
+    n = 200 if quick else 4000
+    jsonl2, nb2 = lib.gen_step(c, "Gen_CArc", "Gen_CArc_sim.cfg", "gen_carc_sim", simulate="num=%d" % n, workers=4, seed_=lib.seed(),
+                                limit=None if quick else 30000)  # -simulate prints far more behaviours than asked for (2.9 GB at num=5000)
     tb2, ts2 = lib.replay_step(c, rt, ["arc"], jsonl2, ["--slots", "5", "--allocs", "3", "--threads", "3"], parts=4,
                                what="CArc/CArcSome diverge from Arc semantics (long behaviour)")
     # impl -> spec
